@@ -9,7 +9,8 @@ use serde_json::json;
 use std::sync::Arc;
 use sv_parser::Error;
 
-pub const JUNK: [&str; 4] = ["\u{1})", " \u{1}", "\n)", " ] \u{7f}"];
+pub const JUNK_GLUED: [&str; 3] = ["é", "ééé x", "世"];
+const JUNK: [&str; 4] = ["\u{1})", " \u{1}", "\n)", " ] \u{7f}"];
 
 fn one(acc: &mut Acc, src: &str, lib: bool, with_junk: bool, what: &str) {
     let case = |extra: &str| json!({"what": what, "lib": lib, "source": clip(src, 2000), "note": extra});
@@ -85,8 +86,21 @@ fn one(acc: &mut Acc, src: &str, lib: bool, with_junk: bool, what: &str) {
             acc.sample(|| json!({"source": clip(src, 160), "lib": lib, "result": "strict == incomplete"}));
             if with_junk {
                 let want = tree::skeleton_nows(&st);
-                for j in JUNK {
-                    let s2 = format!("{}{}", src, j);
+                // junk after the source as it stands, and glued to its last token (no white space in
+                // between; not behind an escaped identifier or a line comment, which it would extend)
+                let trimmed = src.trim_end();
+                let glue_ok = match crate::models::lexref::lex_opts(trimmed, true) {
+                    Ok(lx) => !matches!(lx.last().map(|l| l.k), Some(crate::models::lexref::K::EscId) | Some(crate::models::lexref::K::LineCmt) | Some(crate::models::lexref::K::Bt) | None),
+                    Err(_) => false,
+                };
+                let mut variants: Vec<String> = JUNK.iter().map(|j| format!("{}{}", src, j)).collect();
+                if glue_ok {
+                    for j in JUNK.iter().chain(JUNK_GLUED.iter()) {
+                        variants.push(format!("{}{}", trimmed, j));
+                    }
+                }
+                for s2 in variants {
+                    let j = &s2[trimmed.len().min(s2.len())..];
                     acc.transitions += 1;
                     match api::parse_simple(&s2, lib, true) {
                         Ok(Ok((t2, _))) => {
@@ -133,8 +147,8 @@ fn one(acc: &mut Acc, src: &str, lib: bool, with_junk: bool, what: &str) {
 
 pub fn build(tier: Tier) -> Check<'static> {
     let mut c = Check::new("C15", tier, "6/C15");
-    c.rule = "every enumerated source is parsed in both modes; non-trivial = strict accepts (trees compared, 4 junk suffixes appended) or incomplete returns a proper prefix; distinct by source hash".into();
-    c.assumptions = vec!["junk suffixes are texts no description can start with or be completed by: \\x01, ), ], \\x7f".into()];
+    c.rule = "every enumerated source is parsed in both modes; non-trivial = strict accepts (trees compared, 4 junk suffixes appended and 7 glued to the last token) or incomplete returns a proper prefix; distinct by source hash".into();
+    c.assumptions = vec!["junk suffixes are texts no description can start with or be completed by: \\x01, ), ], \\x7f, and (glued only) é, ééé x, 世".into()];
     let seeds = Arc::new(corpus::load());
     {
         let s = seeds.clone();
